@@ -122,7 +122,7 @@ def run_case(case, r):
     pl = f"payload={case['payload']}/ctor={case['ctor']}"
     conv = CONV[dim]
     cs = img.coordinatesystem
-    origin = np.asarray(img.origin, dtype=float)
+    origin = np.array(img.origin, dtype=float, copy=True)  # private copy: must not alias the image's origin
     if case["origin"] != "default":
         want_o = np.array([3.0, -2.0, 5.0][:dim]) if case["origin"] == "near" else None
         if want_o is not None:
@@ -288,3 +288,51 @@ def run_case(case, r):
                 part = np.asarray(convert(got), dtype=float)
                 ok = part.shape == full.shape and np.array_equal(part, full)
             r.check(ok, f"C01/typed/getitem-{kname}/{tname}/dim={dim}", "a sub-batch selected by index array / mask keeps its point type and converts like the same rows of the full batch", type=type(got).__name__)
+
+
+    # ---- call history on ONE image object: the geometry is changed in place after the
+    # coordinate system has been used; every conversion must follow the current metadata
+    history_clause(r, case, img, dims, vs, V, conv, exact, tolc)
+
+
+def history_clause(r, case, img, dims, vs, V, conv, exact, tolc):
+    import darsia
+
+    dim = case["dim"]
+    shape = tuple(case["shape"])
+    cellb = f"C01/history/dim={dim}"
+
+    def recheck(label, origin_expected):
+        cs = img.coordinatesystem
+        o = np.array(origin_expected, dtype=float)
+        c0 = np.asarray(cs.coordinate(np.zeros(dim, dtype=int)), dtype=float)
+        r.check(np.array_equal(c0, o) and np.array_equal(np.asarray(img.origin, dtype=float), o), f"{cellb}/{label}/origin", "after an in-place change of the origin, voxel zero maps to the new origin", got=c0, want=o)
+        P = V + 0.5
+        C = np.empty_like(P)
+        for m in range(dim):
+            c, s_ = conv[m]
+            C[:, c] = o[c] + s_ * P[:, m] * vs[m]
+        got = np.asarray(cs.voxel(C))
+        r.check(np.array_equal(got, V), f"{cellb}/{label}/roundtrip", "voxel centres computed with the new origin convert to their voxels (no stale coordinate system)")
+        opp = np.asarray(img.opposite_corner, dtype=float)
+        want = o.copy()
+        for m in range(dim):
+            c, s_ = conv[m]
+            want[c] = o[c] + s_ * shape[m] * vs[m]
+        r.check(bool(np.all(np.abs(opp - want) <= tolc * 2 + (0 if exact else 4e-16 * np.abs(want)))), f"{cellb}/{label}/opposite-corner", "the opposite corner follows the new origin", got=opp, want=want)
+        # reading derived quantities must not move the origin
+        r.check(np.array_equal(np.asarray(img.origin, dtype=float), o), f"{cellb}/{label}/origin-stable", "reading opposite_corner / coordinatesystem leaves the origin unchanged", got=np.asarray(img.origin, dtype=float), want=o)
+
+    _ = img.coordinatesystem.coordinate(np.zeros(dim, dtype=int))  # the system has been used
+    _ = img.opposite_corner
+    o1 = [7.0, -3.0, 11.0][:dim]
+    img.update_metadata(origin=darsia.Coordinate(np.array(o1)))
+    recheck("update_metadata", o1)
+    o2 = [-1.5, 4.25, 0.5][:dim]
+    img.origin = darsia.Coordinate(np.array(o2))
+    recheck("assign", o2)
+    img.reset_origin()
+    # the statement does not fix the default origin: whatever reset_origin() stores is the
+    # origin every conversion has to follow from now on
+    o3 = np.array(img.origin, dtype=float, copy=True)
+    recheck("reset_origin", o3)
